@@ -588,7 +588,7 @@ FIXED = [
     dict(kind="flat", ordering="serial", grid=dict(kind="regular", shape0=[3, 2], splits=[[2, 3], [2, 2]])),
     dict(kind="flat", ordering="nest", grid=dict(kind="regular", shape0=[3, 2], splits=[[2, 3], [2, 2], [1, 2]])),
     dict(kind="flat", ordering="serial", grid=dict(kind="open", shape0=[5, 7], splits=[[2, 3], [2, 2]], padding=[[1, 2], [1, 1]])),
-    dict(kind="flat", ordering="nest", grid=dict(kind="hp", nside0=1, depth=2)),
+    dict(kind="flat", ordering="nest", grid=dict(kind="hp", nside0=1, depth=1)),
     dict(kind="simpleopen", min_shape=[5, 4], depth=2, window=3, splits=2, distances=None),
     dict(kind="log", min_shape=[6], depth=2, window=3, splits=2, r_min=0.5, r_max=20.0),
     dict(kind="brokenlog", min_shape=[6], depth=1, window=3, splits=2, r_min=0.5, r_linthresh=2.0, r_max=20.0),
@@ -752,7 +752,7 @@ def misc_requests(ctx):
 def run(ctx):
     _jax()
     specs = [c["spec"] for c in _corpus()] + FIXED
-    for _ in range(ctx.n(6, 60)):
+    for _ in range(ctx.n(4, 60)):
         specs.append(gen_spec(ctx.rng, ctx.quick))
     check_specs(ctx, specs)
     ctx.extra["exhaustive_per_grid"] = "every index of every level of every generated grid"
